@@ -70,6 +70,7 @@ ReadStep(st, v, sel) ==
             ELSE items[j + 1]
     [] v.t = "obj" /\ sel.s = "key" ->
          LET m == st.heap[v.id].m IN IF sel.k \in DOMAIN m THEN m[sel.k] ELSE Missing
+    [] v.t = "unset" /\ sel.s = "idx" /\ sel.i < 0 -> [t |-> "open"]   \* x[-1] with x never assigned: not fixed
     [] v.t \in {"null", "missing", "unset"} -> Missing   \* a.b.c is null when a.b is
     [] OTHER -> [t |-> "open"]                          \* key of an array, index of an object, member of a scalar
 
@@ -110,6 +111,7 @@ AssignAt(st, cur, sels, v) ==
            r == AssignAt(st, IF sel.k \in DOMAIN m THEN m[sel.k] ELSE Missing, rest, v)
        IN IF r.status # "ok" THEN r
           ELSE [st |-> [r.st EXCEPT !.heap[cur.id].m = (sel.k :> r.val) @@ @], val |-> cur, status |-> "ok"]
+  ELSE IF cur.t = "str" /\ sel.s = "idx" THEN Fail(st, "open")     \* s[0] = v on a string: not fixed (silently dropped today)
   ELSE IF cur.t \in {"num", "str", "bool"} THEN Fail(st, "error")   \* member store on a scalar
   ELSE Fail(st, "open")   \* through an explicit null; key of an array; index of an object
 
